@@ -1336,8 +1336,15 @@ func c17BilevelBody(r *fw.Rec, W, H int, sample bool, ctx map[string]interface{}
 				l, t, cw, ch := c17GenCrop(rng, v)
 				trace = append(trace, fmt.Sprintf("Crop(%d,%d,%d,%d)", l, t, cw, ch))
 				ctx["ops"] = trace
+				if bb.IsCropSupported() != ls.IsCropSupported() {
+					return fail("BinaryBitmap.IsCropSupported:differs-from-source", fmt.Sprintf("BinaryBitmap.IsCropSupported()=%v, source %v", bb.IsCropSupported(), ls.IsCropSupported()))
+				}
 				if !bb.IsCropSupported() {
-					return fail("BinaryBitmap.IsCropSupported:false", "IsCropSupported()=false for a source that supports cropping")
+					if _, err := bb.Crop(l, t, cw, ch); err == nil {
+						return fail("BinaryBitmap.Crop:unsupported-but-no-error", "cropping is unsupported but returned no error")
+					}
+					r.Tally("bin_crop_unsupported_refused")
+					continue
 				}
 				nb, err := bb.Crop(l, t, cw, ch)
 				acc, class, detail := c17CropOutcome(r, v, l, t, cw, ch, err, nb == nil, "bin_")
@@ -1368,9 +1375,9 @@ func c17BilevelBody(r *fw.Rec, W, H int, sample bool, ctx map[string]interface{}
 				trace = append(trace, "RotateCounterClockwise")
 				ctx["ops"] = trace
 				nb, err := bb.RotateCounterClockwise()
-				rotatable := kind != c17Ints && kind != c17YUV
-				if bb.IsRotateSupported() != rotatable {
-					return fail("BinaryBitmap.IsRotateSupported:wrong", fmt.Sprintf("IsRotateSupported()=%v for a %s source", bb.IsRotateSupported(), c17KindName[kind]))
+				rotatable := bb.IsRotateSupported()
+				if rotatable != ls.IsRotateSupported() {
+					return fail("BinaryBitmap.IsRotateSupported:differs-from-source", fmt.Sprintf("BinaryBitmap.IsRotateSupported()=%v, source %v", rotatable, ls.IsRotateSupported()))
 				}
 				if !rotatable {
 					if err == nil {
@@ -1537,7 +1544,7 @@ func c17SymbolBody(r *fw.Rec, wr c17Writer, scale int, sample bool, ctx map[stri
 // ------------------------------------------------------------------ driver
 
 func c17(c *fw.Ctx) {
-	c.Rule("views: every shape w x h in 1..200 x 1..200 for each of 5 source kinds (image.Gray, image.RGBA, image.NRGBA incl. sub-images and non-zero origins, RGB ints, planar YUV with a data window and reverseHorizontal), each with a seeded sequence of <= 6 operations (Crop with rectangles inside the view / with negative origin / leaving the underlying image / leaving only the view, Invert, RotateCounterClockwise; scripted: four quarter turns, double inversion, crop chains); after every step GetWidth/GetHeight, GetMatrix, GetRow(y) for every y with nil/short/long/reused buffers and GetRow(-1), GetRow(h) are compared with a [][]uint8 model holding the underlying image and the view rectangle. Small sources 1..3 x 1..3 (depth 2) and 1..8 x 1..8 (depth 1): every crop rectangle with origin -2..w+1 and size 1..W+1. Binarisers: bilevel images of every shape 1..100 x 1..100 (14 pattern families) on all source kinds, optionally inverted and cropped/rotated through BinaryBitmap, plus renderings of the 11 writers at scales 1..4: GetBlackMatrix (twice) of both binarisers == (lum == 0) or NotFoundException, every GetBlackRow against the sharpened-threshold model, GetBlackRow(-1), GetBlackRow(h) refused. A case is non-trivial when its whole script ran; distinct = distinct (kind, shape, operation trace) resp. image")
+	c.Rule("views: every shape w x h in 1..200 x 1..200 for each of 5 source kinds (image.Gray, image.RGBA, image.NRGBA incl. sub-images and non-zero origins, RGB ints, planar YUV with a data window and reverseHorizontal), each with a seeded sequence of <= 6 operations (Crop with rectangles inside the view / with negative origin / leaving the underlying image / leaving only the view, Invert, RotateCounterClockwise; scripted: four quarter turns, double inversion, crop chains); after every step GetWidth/GetHeight, GetMatrix, GetRow(y) for every y with nil/short/long/reused buffers and GetRow(-1), GetRow(h) are compared with a [][]uint8 model holding the underlying image and the view rectangle. Small sources 1..3 x 1..3 (depth 2) and 1..8 x 1..8 (depth 1): every crop rectangle with origin -2..w+1 and size 1..W+1. Binarisers: bilevel images of every shape 1..100 x 1..100 (11 pattern families: uniform, noise, sparse, stripes, checker, blobs, single pixel, halves, frame) on all source kinds, optionally inverted and cropped/rotated through BinaryBitmap, plus renderings of the 11 writers at scales 1..4: GetBlackMatrix (twice) of both binarisers == (lum == 0) or NotFoundException, every GetBlackRow against the sharpened-threshold model, GetBlackRow(-1), GetBlackRow(h) refused. A case is non-trivial when its whole script ran; distinct = distinct (kind, shape, operation trace) resp. image")
 	c.Assume("the colour->luminance formula is not fixed by the statement: grey opaque pixels (r=g=b, alpha 255, YUV Y bytes) must map to their grey value exactly; for coloured / translucent / transparent pixels the model takes the value from the source's first GetMatrix and every later view must agree with it (tally pixels_luminance_not_fixed_by_statement)")
 	c.Assume("crop don't-care (DESIGN C17): a rectangle that leaves the view it is applied to but stays inside the underlying image may be refused or show the underlying pixels (for planar YUV with reverseHorizontal: the data as mirrored in place); after a rotation the underlying image is the rotated underlying image; tallies crop_dont_care_*")
 	c.Assume("crop coordinates are bounded by a few image sizes (no integer-overflow rectangles); width and height >= 1; RotateCounterClockwise45 is not part of the statement and is not called")
